@@ -235,10 +235,9 @@ Qed.
 Lemma errors_distinct :
   ERR_NOT_ENOUGH <> ERR_TOO_MANY /\ ERR_NOT_ENOUGH <> ERR_INVALID_BINARY /\
   ERR_TOO_MANY <> ERR_INVALID_BINARY /\
-  ERR_NOT_ENOUGH = 7 /\ ERR_TOO_MANY = 8 /\ ERR_INVALID_BINARY = 3 /\
-  nth 7 HandError_NAMES EmptyString = "NotEnoughCards"%string /\
-  nth 8 HandError_NAMES EmptyString = "TooManyCards"%string /\
-  nth 3 HandError_NAMES EmptyString = "InvalidBinaryFormat"%string.
+  nth (N.to_nat ERR_NOT_ENOUGH) HandError_NAMES EmptyString = "NotEnoughCards"%string /\
+  nth (N.to_nat ERR_TOO_MANY) HandError_NAMES EmptyString = "TooManyCards"%string /\
+  nth (N.to_nat ERR_INVALID_BINARY) HandError_NAMES EmptyString = "InvalidBinaryFormat"%string.
 Proof. repeat split; vm_compute; congruence. Qed.
 
 (* succeeds exactly when the set consists of two card bits *)
